@@ -99,17 +99,17 @@ def compare_matrix(res, got, want, T, ctx):
     for k in set(got) | set(want):
         res.count("entries_compared")
         if not (isinstance(k, tuple) and len(k) == 2 * T):
-            res.violate("matrix-key-is-not-a-pair-of-excess-tuples", key=repr(k), **ctx); return False
+            res.violate("matrix-key-is-not-a-pair-of-excess-tuples", key=repr(k), ctx=ctx); return False
         if abs(got.get(k, 0.0) - want.get(k, 0.0)) > TOL:
-            res.violate("matrix-entry-differs-from-definition", key=k, got=got.get(k, 0.0), want=want.get(k, 0.0), **ctx); return False
+            res.violate("matrix-entry-differs-from-definition", key=k, got=got.get(k, 0.0), want=want.get(k, 0.0), ctx=ctx); return False
         if k[:T] == k[T:]:
             res.count("self_paired_entries")
     if want:
         if abs(sum(got.values()) - 1.0) > 1e-9:
-            res.violate("matrix-does-not-sum-to-one", total=sum(got.values()), **ctx); return False
+            res.violate("matrix-does-not-sum-to-one", total=sum(got.values()), ctx=ctx); return False
         for k, v in got.items():
             if abs(v - got.get(k[T:] + k[:T], 0.0)) > TOL:
-                res.violate("matrix-not-symmetric", key=k, **ctx); return False
+                res.violate("matrix-not-symmetric", key=k, ctx=ctx); return False
     return True
 
 
@@ -175,7 +175,7 @@ def run_case(case):
         ej = sut("ejks", lambda: r.ejks)
         keys = sut("excess_degree_keys", lambda: r.excess_degree_keys)
         if not isinstance(ej, dict) or set(ej) != set(names):
-            res.violate("matrices-not-keyed-by-the-topology-names", got=repr(list(ej))[:200] if isinstance(ej, dict) else repr(ej)[:100], **ctx); break
+            res.violate("matrices-not-keyed-by-the-topology-names", got=repr(list(ej))[:200] if isinstance(ej, dict) else repr(ej)[:100], ctx=ctx); break
         ok = True
         for t in names:
             if not compare_matrix(res, ej[t], refs[gi][t], T, dict(ctx, topology=t)):
@@ -183,7 +183,7 @@ def run_case(case):
             halves = {k[:T] for k in ej[t]} | {k[T:] for k in ej[t]}
             classes = max(classes, len(halves))
             if not halves <= set(map(tuple, keys.get(t, []))):
-                res.violate("excess-keys-do-not-cover-the-matrix", topology=t, missing=sorted(halves - set(map(tuple, keys.get(t, []))))[:4], **ctx)
+                res.violate("excess-keys-do-not-cover-the-matrix", topology=t, missing=sorted(halves - set(map(tuple, keys.get(t, []))))[:4], ctx=ctx)
                 ok = False; break
             # row sums equal the excess distribution of that topology (ends whose own vertex has excess a)
             rows = defaultdict(float)
@@ -197,7 +197,7 @@ def run_case(case):
                     a = list(G.nodes[w][NN.JOINT_DEGREE]); a[i] -= 1
                     ends[tuple(a)] += 1.0 / (2 * len(es))
             if any(abs(rows.get(a, 0) - ends.get(a, 0)) > 1e-9 for a in set(rows) | set(ends)):
-                res.violate("row-sums-differ-from-excess-distribution", topology=t, **ctx); ok = False; break
+                res.violate("row-sums-differ-from-excess-distribution", topology=t, ctx=ctx); ok = False; break
         if not ok:
             break
         snap_now = (copy.deepcopy(ej), {t: sorted(map(tuple, v)) for t, v in keys.items()})
@@ -205,7 +205,7 @@ def run_case(case):
             res.count("repeat_calls")
             multi = True
             if snap_now[1] != first[x][1]:
-                res.violate("key-lists-changed-between-calls", **ctx); break
+                res.violate("key-lists-changed-between-calls", ctx=ctx); break
         else:
             first[x] = snap_now
     # the hook saw what the boundary saw
